@@ -161,8 +161,13 @@ func imp(a, b string) string {
 }
 
 // Ctx collects declarations (append-only, in dependency order).
+type declEntry struct {
+	text string
+	key  string // "" = always included; otherwise a definition that matters only when symbol `key` is relevant
+}
+
 type Ctx struct {
-	decls    []string
+	decls    []declEntry
 	declared map[string]bool
 	n        int
 	structs  map[string]*types.Struct // datatype name -> struct
@@ -196,12 +201,64 @@ func newCtx() *Ctx {
 
 func (c *Ctx) note(s string) { c.notes[s] = true }
 
-func (c *Ctx) decl(s string) { c.decls = append(c.decls, s) }
+func (c *Ctx) decl(s string) { c.decls = append(c.decls, declEntry{s, ""}) }
+
+// declKeyed records a definitional assertion about the fresh symbol key (relevance filtering may drop it from
+// queries that never mention key).
+func (c *Ctx) declKeyed(key, s string) { c.decls = append(c.decls, declEntry{s, key}) }
+
+var symRe = regexp.MustCompile(`[A-Za-z_][A-Za-z0-9_.!]*`)
+
+// render builds the declaration prefix of a query: all declarations, the unkeyed assertions, and the keyed
+// definitions reachable from the symbols of body (cone of influence).
+func (c *Ctx) render(body string) string {
+	rel := map[string]bool{}
+	add := func(t string) {
+		for _, m := range symRe.FindAllString(t, -1) {
+			rel[m] = true
+		}
+	}
+	add(body)
+	include := make([]bool, len(c.decls))
+	for i, d := range c.decls {
+		if d.key == "" {
+			include[i] = true
+			if strings.HasPrefix(d.text, "(assert") {
+				add(d.text)
+			}
+		}
+	}
+	for changed := true; changed; {
+		changed = false
+		for i, d := range c.decls {
+			if !include[i] && rel[d.key] {
+				include[i] = true
+				add(d.text)
+				changed = true
+			}
+		}
+	}
+	var b strings.Builder
+	for i, d := range c.decls {
+		if include[i] {
+			b.WriteString(d.text)
+			b.WriteByte('\n')
+		}
+	}
+	return b.String()
+}
 
 func (c *Ctx) declOnce(name, s string) {
 	if !c.declared[name] {
 		c.declared[name] = true
 		c.decl(s)
+	}
+}
+
+func (c *Ctx) declOnceKeyed(name, key, s string) {
+	if !c.declared[name] {
+		c.declared[name] = true
+		c.declKeyed(key, s)
 	}
 }
 
@@ -236,7 +293,7 @@ func (c *Ctx) strLit(s string) Term {
 	}
 	name := fmt.Sprintf("str!lit%d", len(c.strLits))
 	c.decl(fmt.Sprintf("(declare-const %s Str)", name))
-	c.decl(fmt.Sprintf("(assert (= (strlen %s) %d))", name, len(s)))
+	c.declKeyed(name, fmt.Sprintf("(assert (= (strlen %s) %d))", name, len(s)))
 	// distinct from all earlier literals
 	var olds []string
 	for _, o := range c.strLits {
@@ -244,10 +301,10 @@ func (c *Ctx) strLit(s string) Term {
 	}
 	sort.Strings(olds)
 	for _, o := range olds {
-		c.decl(fmt.Sprintf("(assert (not (= %s %s)))", name, o))
+		c.declKeyed(name, fmt.Sprintf("(assert (not (= %s %s)))", name, o))
 	}
 	for i := 0; i < len(s) && i < 16; i++ {
-		c.decl(fmt.Sprintf("(assert (= (strat %s %d) %d))", name, i, s[i]))
+		c.declKeyed(name, fmt.Sprintf("(assert (= (strat %s %d) %d))", name, i, s[i]))
 	}
 	c.strLits[s] = name
 	return Term{S: name, Sort: "Str", T: types.Typ[types.String]}
@@ -371,11 +428,22 @@ type solverSpec struct {
 	args func(timeoutS int) []string
 }
 
+// Effort is bounded by the solvers' deterministic resource counters (z3 rlimit, cvc5 rlimit), not by wall-clock
+// time, so that the verdict does not depend on machine load; the wall limit is only a generous safety net.
+const z3UnitsPerSec = 3000000
+const cvc5UnitsPerSec = 200000
+
+func wallFor(t int) int { return 60 + 30*t }
+
 var solvers = []solverSpec{
-	{"z3-4.8.12", func(t int) []string { return []string{"z3", "-in", "-smt2", fmt.Sprintf("-T:%d", t)} }},
-	{"z3-5.1.0", func(t int) []string { return []string{"z3-new", "-in", "-smt2", fmt.Sprintf("-T:%d", t)} }},
+	{"z3-4.8.12", func(t int) []string {
+		return []string{"z3", "-in", "-smt2", fmt.Sprintf("-T:%d", wallFor(t)), fmt.Sprintf("rlimit=%d", t*z3UnitsPerSec)}
+	}},
+	{"z3-5.1.0", func(t int) []string {
+		return []string{"z3-new", "-in", "-smt2", fmt.Sprintf("-T:%d", wallFor(t)), fmt.Sprintf("rlimit=%d", t*z3UnitsPerSec)}
+	}},
 	{"cvc5-1.0", func(t int) []string {
-		return []string{"cvc5", "--lang", "smt2", "--produce-models", fmt.Sprintf("--tlimit=%d", t*1000)}
+		return []string{"cvc5", "--lang", "smt2", "--produce-models", fmt.Sprintf("--tlimit=%d", wallFor(t)*1000), fmt.Sprintf("--rlimit=%d", t*cvc5UnitsPerSec)}
 	}},
 }
 
@@ -384,7 +452,7 @@ func runSolver(sp solverSpec, query string, timeoutS int, wantModel bool) SolveR
 	if wantModel {
 		q += "(get-model)\n"
 	}
-	ctx, cancel := context.WithTimeout(context.Background(), time.Duration(timeoutS+2)*time.Second)
+	ctx, cancel := context.WithTimeout(context.Background(), time.Duration(wallFor(timeoutS)+5)*time.Second)
 	defer cancel()
 	a := sp.args(timeoutS)
 	cmd := exec.CommandContext(ctx, a[0], a[1:]...)
@@ -414,7 +482,7 @@ func runSolver(sp solverSpec, query string, timeoutS int, wantModel bool) SolveR
 	case "timeout":
 		r.Status = "timeout"
 	default:
-		if ctx.Err() != nil || strings.Contains(raw, "timeout") || strings.Contains(raw, "interrupted") {
+		if ctx.Err() != nil || strings.Contains(raw, "timeout") || strings.Contains(raw, "interrupted") || strings.Contains(raw, "resource") {
 			r.Status = "timeout"
 		} else {
 			r.Status = "error"
